@@ -36,17 +36,32 @@ func VerifH_PathBinding() {
 	}
 	var decls []decl
 	var nodes [][]*catalog.SchemaContentJSight
+	var firstContent *catalog.SchemaContentJSight
 	for i := 0; i < nDecl; i++ {
 		p := verifPathMenu[verifrt.Choice("dpath", len(verifPathMenu))]
 		keys := verifKeyMenu[verifrt.Choice("dkeys", len(verifKeyMenu))]
+		// two Path directives whose body is the same user-type reference ("Path @t") share that
+		// type's schema content (ExpandRawPathVariableShortcuts assigns ut.Schema)
+		shared := i == 1 && verifrt.Choice("same-user-type-body", 2) == 1
+		if shared {
+			keys = decls[0].keys
+		}
 		decls = append(decls, decl{p, keys})
 		sc := &catalog.SchemaContentJSight{TokenType: "object", Type: "object"}
 		var ns []*catalog.SchemaContentJSight
-		for _, k := range keys {
-			key := k
-			n := &catalog.SchemaContentJSight{Key: &key, TokenType: "string", Type: "string", ScalarValue: "v"}
-			sc.Children = append(sc.Children, n)
-			ns = append(ns, n)
+		if shared {
+			sc = firstContent
+			ns = nodes[0]
+		} else {
+			for _, k := range keys {
+				key := k
+				n := &catalog.SchemaContentJSight{Key: &key, TokenType: "string", Type: "string", ScalarValue: "v"}
+				sc.Children = append(sc.Children, n)
+				ns = append(ns, n)
+			}
+		}
+		if i == 0 {
+			firstContent = sc
 		}
 		nodes = append(nodes, ns)
 		s := catalog.NewSchema(notation.SchemaNotationJSight)
